@@ -379,7 +379,8 @@ def compare(beh, info, res, tol=2e-5, log_on=True, echo_on=True):
                     want = [ring_to_c(z) for z in beh["vec"]]
                 ok, why = same_up_to_phase(impl, want, tol)
                 if not ok:
-                    out.append(("C03,C01", "final amplitudes differ from the exact spec state (%s)" % why))
+                    # the spec state is also what replaying the listing on an independent interpreter gives (C05)
+                    out.append(("C03,C01,C05", "final amplitudes differ from the exact spec state (%s)" % why))
         if fin["simmeas"] != beh["simmeas"] or fin["evmeas"][:beh["n"]] != beh["evmeas"]:
             out.append(("C06", "measured flags: simulator %s evaluator %s; spec %s / %s"
                         % (fin["simmeas"], fin["evmeas"], beh["simmeas"], beh["evmeas"])))
